@@ -1,4 +1,317 @@
-(* Property C06 — theorems only (placeholder, filled at M2). *)
-From Coq Require Import List Bool Arith QArith.
-From DV Require Import Base.C06_Py Model.C06_Select.
+(* Property C06 — theorems only.
+   Model: Model/C06_Select.v (deap/tools/selection.py, selTournamentDCD of deap/tools/emo.py).
+
+   Reading guide.  An operator is a function of the population, its parameters and the list of
+   recorded draws; `= Ok out rest` means it returned the list `out` having consumed the draws
+   up to `rest`; a draw log that CPython's `random` cannot produce (wrong kind, index out of range,
+   u outside [0,1), not a permutation, repeated sample index) makes the model answer Mismatch, so
+   every theorem below quantifies over all draw values in the library-guaranteed ranges.
+   Individuals are records (uid, wvalues, len, crowding distance); "the very objects of the
+   population" is `In x inds` on these records (uids included); that the population list and the
+   individuals are not mutated is a fact about the implementation, checked by the harness on every
+   call (the model is functional). *)
+From Coq Require Import List Bool Arith ZArith Permutation Sorted QArith Qround.
+From DV Require Import Base.PyList Base.C06_Py Model.C06_Select.
+From DV Require Import Proofs.C06_Sort Proofs.C06_Basic Proofs.C06_Roulette Proofs.C06_SUS
+  Proofs.C06_Lexicase Proofs.C06_DCD Proofs.C06_Safety.
 Import ListNotations.
+
+(* ------------------------------------------------------------------ selRandom *)
+Theorem C06_selRandom : forall inds k ds out rest,
+  selRandom inds k ds = Ok out rest -> length out = k /\ Forall (fun x => In x inds) out.
+Proof. exact selRandom_spec. Qed.
+Print Assumptions C06_selRandom.
+
+Theorem C06_selRandom_no_raise : forall inds k ds e, inds <> [] -> selRandom inds k ds <> Raise e.
+Proof. exact selRandom_no_raise. Qed.
+Print Assumptions C06_selRandom_no_raise.
+
+(* ------------------------------------------------------------------ selBest / selWorst *)
+(* min(k, n) individuals, in non-increasing fitness order, a sub-multiset of the population, and
+   every non-selected individual is <= every selected one *)
+Theorem C06_selBest : forall inds k,
+  let out := selBest inds k in
+  length out = Nat.min k (length inds) /\
+  StronglySorted (fun a b => f_le b a = true) out /\
+  exists rest, Permutation inds (out ++ rest) /\
+               forall x y, In x rest -> In y out -> f_le x y = true.
+Proof. exact selBest_spec. Qed.
+Print Assumptions C06_selBest.
+
+Theorem C06_selWorst : forall inds k,
+  let out := selWorst inds k in
+  length out = Nat.min k (length inds) /\
+  StronglySorted (fun a b => f_le a b = true) out /\
+  exists rest, Permutation inds (out ++ rest) /\
+               forall x y, In x rest -> In y out -> f_le y x = true.
+Proof. exact selWorst_spec. Qed.
+Print Assumptions C06_selWorst.
+
+(* f_le is the lexicographic order of the weighted values (CPython tuple comparison) *)
+Theorem C06_fitness_order : forall a b,
+  (f_lt a b = true <-> qlex_lt (wv a) (wv b)) /\ f_le a b = negb (f_lt b a) /\
+  f_gt a b = f_lt b a /\ (f_le a b = true \/ f_le b a = true).
+Proof.
+  intros a b. split; [apply qtup_lt_spec|]. split; [apply f_le_lt|]. split; [apply f_gt_lt|apply f_le_total].
+Qed.
+Print Assumptions C06_fitness_order.
+
+(* ties are broken by input order (stable sort), which determines the result completely *)
+Theorem C06_selBest_stable : forall inds a,
+  filter (f_eqv a) (py_sorted_rev f_lt inds) = filter (f_eqv a) inds /\
+  filter (f_eqv a) (py_sorted f_lt inds) = filter (f_eqv a) inds.
+Proof. intros; split; [apply selBest_stable|apply selWorst_stable]. Qed.
+Print Assumptions C06_selBest_stable.
+
+(* ------------------------------------------------------------------ selTournament *)
+(* k winners; each is an element of the population and a best one (no aspirant is strictly
+   better) of tournsize aspirants sampled from the population by the recorded draws *)
+Theorem C06_selTournament : forall inds k tournsize ds out rest,
+  selTournament inds k tournsize ds = Ok out rest ->
+  length out = k /\
+  Forall (fun w => In w inds /\
+     exists aspirants d d',
+       selRandom inds tournsize d = Ok aspirants d' /\
+       length aspirants = tournsize /\ Forall (fun a => In a inds) aspirants /\
+       In w aspirants /\ forall a, In a aspirants -> f_le a w = true) out.
+Proof. exact selTournament_spec. Qed.
+Print Assumptions C06_selTournament.
+
+Theorem C06_selTournament_no_raise : forall inds k tournsize ds e,
+  inds <> [] -> (1 <= tournsize)%nat -> selTournament inds k tournsize ds <> Raise e.
+Proof. exact selTournament_no_raise. Qed.
+Print Assumptions C06_selTournament_no_raise.
+
+(* ------------------------------------------------------------------ selDoubleTournament *)
+(* size_choice ps i1 i2 u c : of the two candidates i1, i2 (sampling order) the shorter one is kept
+   iff u < ps/2; on equal lengths the first one iff u < 1/2.
+   size_winner ps P c  : c is the outcome of that rule on two candidates satisfying P, 0 <= u < 1.
+   fit_winner fs P w   : w is a best one of fs aspirants satisfying P. *)
+Theorem C06_selDoubleTournament : forall inds k fitness_size parsimony_size fitness_first ds out rest,
+  selDoubleTournament inds k fitness_size parsimony_size fitness_first ds = Ok out rest ->
+  1 <= parsimony_size /\ parsimony_size <= 2 /\ length out = k /\
+  (fitness_first = true ->
+     Forall (size_winner parsimony_size (fit_winner fitness_size (fun x => In x inds))) out) /\
+  (fitness_first = false ->
+     Forall (fit_winner fitness_size (size_winner parsimony_size (fun x => In x inds))) out).
+Proof. exact selDoubleTournament_spec. Qed.
+Print Assumptions C06_selDoubleTournament.
+
+Theorem C06_selDoubleTournament_elements : forall inds k fs ps ff ds out rest,
+  selDoubleTournament inds k fs ps ff ds = Ok out rest -> Forall (fun x => In x inds) out.
+Proof. exact selDoubleTournament_elements. Qed.
+Print Assumptions C06_selDoubleTournament_elements.
+
+Theorem C06_selDoubleTournament_no_raise : forall inds k fs ps ff ds e,
+  inds <> [] -> (1 <= fs)%nat -> 1 <= ps -> ps <= 2 -> selDoubleTournament inds k fs ps ff ds <> Raise e.
+Proof. exact selDoubleTournament_no_raise. Qed.
+Print Assumptions C06_selDoubleTournament_no_raise.
+
+(* ------------------------------------------------------------------ selRoulette *)
+(* positive first objectives: exactly k individuals; the draws are k values u in [0,1) and spin u
+   returns the individual at the position j of the fitness-sorted population with
+   c_j <= u*S < c_{j+1}  (c = cumulative sums, S = total) *)
+Theorem C06_selRoulette : forall w inds k ds out rest,
+  Forall (fun x => 0 < val0 w x) inds -> inds <> [] ->
+  selRoulette w inds k ds = Ok out rest ->
+  let s := py_sorted_rev f_lt inds in
+  let S := sum_fits w inds in
+  0 < S /\ S == tot w s /\ length out = k /\ Forall (fun x => In x inds) out /\
+  exists us, ds = map DRandom us ++ rest /\
+    Forall2 (fun u x => 0 <= u /\ u < 1 /\
+               exists j, nth_error s j = Some x /\
+                         cum w s j <= u * S /\ u * S < cum w s (Datatypes.S j)) us out.
+Proof. exact selRoulette_spec. Qed.
+Print Assumptions C06_selRoulette.
+
+(* "iff", for distinct individuals; the intervals are disjoint, and in units of the unit interval
+   the one of position j is [c_j/S, c_{j+1}/S), of length f_j/S *)
+Theorem C06_roulette_spin_iff : forall w l t j x,
+  Forall (fun x => 0 < val0 w x) l -> NoDup (map uid l) -> 0 <= t ->
+  nth_error l j = Some x ->
+  (spin w l 0 t = Some x <-> cum w l j <= t /\ t < cum w l (S j)).
+Proof. exact spin_iff. Qed.
+Print Assumptions C06_roulette_spin_iff.
+
+Theorem C06_roulette_share : forall w l j x u S,
+  0 < S -> nth_error l j = Some x ->
+  ((cum w l j <= u * S /\ u * S < cum w l (Datatypes.S j)) <->
+   (cum w l j / S <= u /\ u < cum w l (Datatypes.S j) / S)) /\
+  cum w l (Datatypes.S j) / S - cum w l j / S == val0 w x / S.
+Proof. intros. split; [apply share_interval; assumption|apply share_length; assumption]. Qed.
+Print Assumptions C06_roulette_share.
+
+Theorem C06_selRoulette_no_raise : forall w inds k ds e,
+  Forall (fun x => 0 < val0 w x) inds -> selRoulette w inds k ds <> Raise e.
+Proof. exact selRoulette_no_raise. Qed.
+Print Assumptions C06_selRoulette_no_raise.
+
+(* ------------------------------------------------------------------ selStochasticUniversalSampling *)
+(* k = 0 (after the fix in /repo): the empty list *)
+Theorem C06_selSUS_k0 : forall w inds ds,
+  forallb (has_val0 w) inds = true -> selSUS w inds 0 ds = Ok [] ds.
+Proof. exact selSUS_k0. Qed.
+Print Assumptions C06_selSUS_k0.
+
+(* k >= 1, positive first objectives, distinct individuals, start draw u in (0,1): exactly k
+   individuals, each x selected floor or ceil of k*f_x/S times.
+   (u = 0 is excluded: see DESIGN App. B4 and design_notes/C06.md) *)
+Theorem C06_selSUS : forall w inds k u ds out rest,
+  Forall (fun x => 0 < val0 w x) inds -> inds <> [] -> NoDup (map uid inds) -> (0 < k)%nat ->
+  selSUS w inds k (DRandom u :: ds) = Ok out rest -> 0 < u ->
+  let S := sum_fits w inds in
+  rest = ds /\ u < 1 /\ 0 < S /\ length out = k /\ Forall (fun x => In x inds) out /\
+  forall x, In x inds ->
+    let share := inject_Z (Z.of_nat k) * val0 w x / S in
+    (Qfloor share <= Z.of_nat (count_uid (uid x) out))%Z /\
+    (Z.of_nat (count_uid (uid x) out) <= Qceiling share)%Z.
+Proof. exact selSUS_spec. Qed.
+Print Assumptions C06_selSUS.
+
+Theorem C06_selSUS_no_raise : forall w inds k ds e,
+  Forall (fun x => 0 < val0 w x) inds -> inds <> [] -> selSUS w inds k ds <> Raise e.
+Proof. exact selSUS_no_raise. Qed.
+Print Assumptions C06_selSUS_no_raise.
+
+(* the boundary that the hypothesis 0 < u excludes: two individuals of fitness 1, k = 2, start draw
+   exactly 0: the first individual is selected twice (its share is 1) *)
+Example C06_selSUS_start_zero :
+  let a := mkind 0 [1] 0 None in let b := mkind 1 [1] 0 None in
+  selSUS [1] [a; b] 2 [DRandom 0] = Ok [a; a] [].
+Proof. vm_compute. reflexivity. Qed.
+
+(* ------------------------------------------------------------------ lexicase *)
+(* case_dominates w m y x : y is at least as good as x on every case < m (max or min according to
+   the sign of the weight) and strictly better on one.
+   uniform w inds : every individual has one value per weight. *)
+Theorem C06_selLexicase_undominated : forall w inds k ds out rest,
+  uniform w inds -> selLexicase w inds k ds = Ok out rest ->
+  length out = k /\
+  Forall (fun win => In win inds /\ forall y, In y inds -> ~ case_dominates w (length w) y win) out.
+Proof. exact selLexicase_undominated. Qed.
+Print Assumptions C06_selLexicase_undominated.
+
+(* epsilon = 0 is plain lexicase, draw for draw *)
+Theorem C06_selEpsilonLexicase_eps0 : forall w inds k eps ds,
+  eps == 0 -> selEpsilonLexicase w inds k eps ds = selLexicase w inds k ds.
+Proof. exact selEpsilonLexicase_eps0. Qed.
+Print Assumptions C06_selEpsilonLexicase_eps0.
+
+(* Full statement for epsilon > 0 ("a lexicase winner is never dominated case-by-case by another
+   candidate"):
+     forall w inds k eps ds out rest, uniform w inds -> 0 <= eps ->
+       selEpsilonLexicase w inds k eps ds = Ok out rest ->
+       Forall (fun win => forall y, In y inds -> ~ case_dominates w (length w) y win) out.
+   It is false by design of epsilon-lexicase (KNOWN-FINDING C06.eps_lexicase_dominated_within_eps): *)
+Theorem C06_eps_lexicase_literal_refuted :
+  exists w inds k eps ds out rest win y,
+    uniform w inds /\ 0 <= eps /\ selEpsilonLexicase w inds k eps ds = Ok out rest /\
+    In win out /\ In y inds /\ case_dominates w (length w) y win.
+Proof.
+  exists [1], [mkind 0 [1] 0 None; mkind 1 [3 # 4] 0 None], 1%nat, (1 # 2),
+         [DShuffle [0%nat]; DChoice 2 1], [mkind 1 [3 # 4] 0 None], [],
+         (mkind 1 [3 # 4] 0 None), (mkind 0 [1] 0 None).
+  split; [repeat constructor|]. split; [discriminate|]. split; [vm_compute; reflexivity|].
+  split; [left; reflexivity|]. split; [left; reflexivity|]. split.
+  - intros c Hc. assert (c = 0%nat) by (cbn in Hc; apply Nat.lt_1_r; exact Hc). subst c.
+    vm_compute. discriminate.
+  - exists 0%nat. split; [cbn; constructor|]. vm_compute. reflexivity.
+Qed.
+Print Assumptions C06_eps_lexicase_literal_refuted.
+
+(* what does hold for every epsilon >= 0: no candidate that is nowhere worse than the winner is
+   better than it by MORE than epsilon on any case (epsilon = 0 gives the literal statement) *)
+Theorem C06_eps_lexicase_partial : forall w inds k eps ds out rest,
+  uniform w inds -> 0 <= eps -> selEpsilonLexicase w inds k eps ds = Ok out rest ->
+  length out = k /\
+  Forall (fun win => In win inds /\
+            forall y, In y inds -> ~ case_dominates_beyond w (length w) eps y win) out.
+Proof. exact selEpsilonLexicase_partial. Qed.
+Print Assumptions C06_eps_lexicase_partial.
+
+(* eps_survivor: the winner is alive at every considered case and no candidate alive there beats it
+   by more than the tolerance (epsilon, resp. the median absolute deviation of the alive values) *)
+Theorem C06_eps_survivor : forall w inds k eps ds out rest,
+  uniform w inds -> selEpsilonLexicase w inds k eps ds = Ok out rest ->
+  length out = k /\ Forall (survivor_round w (step_eps eps w) (fun _ _ => eps) inds) out.
+Proof.
+  intros w inds k eps ds out rest U H.
+  eapply (lexicase_gen_survivor w (step_eps eps w) (fun _ _ => eps)); eauto.
+  - apply step_eps_sub.
+  - intros; eapply step_eps_tol; eauto.
+Qed.
+Print Assumptions C06_eps_survivor.
+
+Theorem C06_auto_eps_survivor : forall w inds k ds out rest,
+  uniform w inds -> selAutomaticEpsilonLexicase w inds k ds = Ok out rest ->
+  length out = k /\ Forall (survivor_round w (step_auto w) (mad_of w) inds) out.
+Proof.
+  intros w inds k ds out rest U H.
+  eapply (lexicase_gen_survivor w (step_auto w) (mad_of w)); eauto.
+  - apply step_auto_sub.
+  - apply step_auto_tol.
+Qed.
+Print Assumptions C06_auto_eps_survivor.
+
+Theorem C06_lexicase_elements : forall step w inds k ds out rest,
+  (forall c cands x, In x (step c cands) -> In x cands) ->
+  lexicase_gen step w inds k ds = Ok out rest -> length out = k /\ Forall (fun x => In x inds) out.
+Proof.
+  intros step w inds k ds out rest Hs. unfold lexicase_gen. apply repeatM_Forall. intros d x d' H.
+  destruct inds as [|x0 r]; [discriminate|]. bind_inv H as cases d1 H1 H2.
+  apply choice_In in H2. eapply lex_filter_sub; eauto.
+Qed.
+Print Assumptions C06_lexicase_elements.
+
+Theorem C06_lexicase_no_raise : forall w inds k eps ds e, inds <> [] -> 0 <= eps ->
+  selLexicase w inds k ds <> Raise e /\ selEpsilonLexicase w inds k eps ds <> Raise e /\
+  selAutomaticEpsilonLexicase w inds k ds <> Raise e.
+Proof.
+  intros w inds k eps ds e Hne He. repeat split; apply lexicase_gen_no_raise; try exact Hne.
+  - apply step_plain_nonempty.
+  - intros; apply step_eps_nonempty; assumption.
+  - apply step_auto_nonempty.
+Qed.
+Print Assumptions C06_lexicase_no_raise.
+
+(* ------------------------------------------------------------------ selTournamentDCD *)
+Theorem C06_selTournamentDCD : forall inds k ds out rest,
+  NoDup (map uid inds) -> (k mod 4 = 0)%nat ->
+  selTournamentDCD inds k ds = Ok out rest ->
+  (k <= length inds)%nat /\ length out = k /\ Forall (fun x => In x inds) out /\
+  forall u, (count_uid u out <= 2)%nat.
+Proof. exact selTournamentDCD_spec. Qed.
+Print Assumptions C06_selTournamentDCD.
+
+Theorem C06_selTournamentDCD_no_raise : forall inds k ds e,
+  (k <= length inds)%nat -> (k mod 4 = 0)%nat -> selTournamentDCD inds k ds <> Raise e.
+Proof. exact selTournamentDCD_no_raise. Qed.
+Print Assumptions C06_selTournamentDCD_no_raise.
+
+(* ------------------------------------------------------------------ non-vacuity *)
+(* concrete populations and draw logs on which every operator answers Ok (so the hypotheses
+   `... = Ok out rest` above are satisfiable), evaluated by the kernel *)
+Example C06_nonvacuous :
+  let a := mkind 0 [2; (-1)] 3 (Some 1) in
+  let b := mkind 1 [1; (-1)] 1 None in
+  let c := mkind 2 [1; (-3)] 1 (Some (1 # 2)) in
+  let d := mkind 3 [3; (-2)] 2 None in
+  let pop := [a; b; c; d] in
+  let w := [1; (-1)] in
+  selRandom pop 2 [DChoice 4 3; DChoice 4 0] = Ok [d; a] [] /\
+  selBest pop 2 = [d; a] /\ selWorst pop 5 = [c; b; a; d] /\
+  selTournament pop 1 2 [DChoice 4 1; DChoice 4 2] = Ok [b] [] /\
+  selRoulette w pop 2 [DRandom (1 # 2); DRandom 0] = Ok [a; d] [] /\
+  selSUS w pop 2 [DRandom (1 # 2)] = Ok [d; b] [] /\
+  selDoubleTournament pop 1 1 (3 # 2) true [DChoice 4 0; DChoice 4 1; DRandom (7 # 8)] = Ok [a] [] /\
+  selLexicase w pop 1 [DShuffle [1; 0]%nat; DChoice 1 0] = Ok [a] [] /\
+  selEpsilonLexicase w pop 1 1 [DShuffle [0; 1]%nat; DChoice 2 1] = Ok [d] [] /\
+  selAutomaticEpsilonLexicase w pop 1 [DShuffle [0; 1]%nat; DChoice 1 0] = Ok [d] [] /\
+  selTournamentDCD pop 4 [DSample 4 [0; 1; 2; 3]%nat; DSample 4 [3; 2; 1; 0]%nat] = Ok [a; d; d; a] [] /\
+  Forall (fun x => 0 < val0 w x) pop /\ uniform w pop /\ NoDup (map uid pop).
+Proof.
+  cbv zeta. repeat split; try (vm_compute; reflexivity).
+  - repeat constructor.
+  - repeat constructor.
+  - repeat constructor; cbn; intuition discriminate.
+Qed.
